@@ -22,7 +22,27 @@ func main() {
 	replay := flag.String("replay", "", "replay file (re-runs the property; the file names the failing constructs)")
 	dump := flag.String("dump", "", "debug: print the path table of dir:Recv.Name (e.g. http:ErrorResponse.StatusCode)")
 	loop := flag.Int("loop", 0, "debug: loop bound for -dump")
+	mapdbg := flag.Bool("maporder", false, "debug: list all range-over-map sites with their class")
 	flag.Parse()
+	if *mapdbg {
+		abs, _ := filepath.Abs(*repo)
+		ctx, err := an.Load(abs, "dump", "quick")
+		if err != nil {
+			fmt.Fprintln(os.Stderr, err)
+			os.Exit(2)
+		}
+		for _, d := range ctx.ModuleDirs() {
+			for _, f := range ctx.AllFuncs(d) {
+				for _, mr := range an.MapRanges(f, nil) {
+					fmt.Printf("%-22s %s %s range %s :: %s\n", mr.Class, ctx.Position(mr.Stmt.Pos()), f.Name, an.Src(ctx.Fset, mr.Stmt.X), mr.Reason)
+				}
+				for _, sc := range an.SortComparators(f) {
+					fmt.Printf("SORT %s %s %s\n", ctx.Position(sc.Call.Pos()), f.Name, sc.Problem)
+				}
+			}
+		}
+		return
+	}
 	if *dump != "" {
 		abs, _ := filepath.Abs(*repo)
 		ctx, err := an.Load(abs, "dump", "quick")
